@@ -906,7 +906,9 @@ func (c *Client) q(m *spb.ModifyRequest) {
 	c.awaiting.RLock()
 	defer c.awaiting.RUnlock()
 
+	verifPoint("client.q.beforeClosedCheck")
 	if !chIsClosed(c.sendExitCh) {
+		verifPoint("client.q.beforeSend")
 		c.qs.modifyCh <- m
 	}
 }
